@@ -702,7 +702,10 @@ WellFormed(g) ==
              \/ (c.body.k = "alt" /\ ~c.body.sup /\ \A i \in 1..Len(c.body.es) : CommentAtom(c.body.es[i]))
 
 ----------------------------------------------------------------------------
-Ctx0(E) == [skipws |-> E.cfg.skipws, ws |-> IF E.cfg.ws = <<>> THEN DefaultWs ELSE SeqSet(E.cfg.ws),
+\* cfg.ws = <<>> is "option not given" (the default set); the optional field wsnone says ws='' was given:
+\* no character is whitespace (comments are still skipped)
+WsNone(c) == "wsnone" \in DOMAIN c /\ c.wsnone
+Ctx0(E) == [skipws |-> E.cfg.skipws, ws |-> IF WsNone(E.cfg) THEN {} ELSE IF E.cfg.ws = <<>> THEN DefaultWs ELSE SeqSet(E.cfg.ws),
             eol |-> FALSE, incomment |-> FALSE]
 Root(g) == g.rules[1].name
 
